@@ -59,12 +59,12 @@ var modes = []struct {
 // staticClass inspects the static text of the template for the two classes on which the
 // engine's reading of static text and HTML5's differ by design (known findings K17, K01):
 // it returns "" or the class.
-func staticClass(text string) string {
+func staticClass(text string) map[string]bool {
 	trees, err := parse.Parse("root", text, "{{", "}}", map[string]interface{}{"html": 1, "urlquery": 1, "print": 1, "printf": 1})
+	class := map[string]bool{}
 	if err != nil {
-		return ""
+		return class
 	}
-	class := ""
 	var walk func(n parse.Node)
 	walk = func(n parse.Node) {
 		switch n := n.(type) {
@@ -76,8 +76,8 @@ func staticClass(text string) string {
 				walk(m)
 			}
 		case *parse.TextNode:
-			if c := textClass(string(n.Text)); c != "" && class == "" {
-				class = c
+			for _, c := range textClasses(string(n.Text)) {
+				class[c] = true
 			}
 		case *parse.IfNode:
 			walk(n.List)
@@ -102,7 +102,7 @@ func isAlpha(b byte) bool { return 'a' <= b && b <= 'z' || 'A' <= b && b <= 'Z' 
 
 // textClass: K17 = a '<' not followed by a letter, '/'+letter, '!--' or '!doctype';
 // K01 = a comment that is not closed by a plain '-->' ('--!>', '<!-->', '<!--->').
-func textClass(s string) string {
+func textClasses(s string) (out []string) {
 	for i := 0; i < len(s); i++ {
 		if s[i] != '<' {
 			continue
@@ -111,28 +111,28 @@ func textClass(s string) string {
 		switch {
 		case len(rest) > 0 && isAlpha(rest[0]):
 			if tagNameOddEnd(rest) {
-				return "K28"
+				out = append(out, "K28")
 			}
 		case len(rest) > 1 && rest[0] == '/' && isAlpha(rest[1]):
 			if tagNameOddEnd(rest[1:]) {
-				return "K28"
+				out = append(out, "K28")
 			}
 		case strings.HasPrefix(rest, "!--"):
 			body := rest[3:]
 			if strings.HasPrefix(body, ">") || strings.HasPrefix(body, "->") {
-				return "K01"
+				out = append(out, "K01")
 			}
 			end := strings.Index(body, "-->")
 			bang := strings.Index(body, "--!>")
 			if bang >= 0 && (end < 0 || bang < end) {
-				return "K01"
+				out = append(out, "K01")
 			}
 		case len(rest) >= 8 && strings.EqualFold(rest[:8], "!doctype"):
 		default:
-			return "K17"
+			out = append(out, "K17")
 		}
 	}
-	return ""
+	return out
 }
 
 // tagNameOddEnd: the tag name (as the engine reads it: letters, digits, ':' or '-' followed by
@@ -233,7 +233,7 @@ func checkOne(c *core.Ctx, text string, hs, is gen.DataSpec, verbose bool) {
 				modeDep[i] = !eqS(sRef[i], sRef[0])
 			}
 			// oracle 2
-			if class == "" || c.Strict {
+			if len(class) == 0 || c.Strict {
 				c.Count("oracle2_compared", 1)
 				for i, m := range modes {
 					if modeDep[i] && !c.Strict {
@@ -251,7 +251,9 @@ func checkOne(c *core.Ctx, text string, hs, is gen.DataSpec, verbose bool) {
 					}
 				}
 			} else {
-				c.Count("oracle2_excluded_by_known:"+class, 1)
+				for k := range class {
+					c.Count("oracle2_excluded_by_known:"+k, 1)
+				}
 			}
 		}
 	}
@@ -261,7 +263,7 @@ func checkOne(c *core.Ctx, text string, hs, is gen.DataSpec, verbose bool) {
 	c.Count("accepted_hostile_executions", 1)
 	tokH := tokAll(rH.Out)
 	// oracle 1
-	if class == "K28" && !c.Strict {
+	if class["K28"] && !c.Strict {
 		c.Count("oracle1_excluded_by_known:K28", 1)
 	} else if rI.ExecErr == nil {
 		c.Count("oracle1_compared", 1)
@@ -274,7 +276,7 @@ func checkOne(c *core.Ctx, text string, hs, is gen.DataSpec, verbose bool) {
 		}
 	}
 	// oracle 3
-	if class == "K28" && !c.Strict {
+	if class["K28"] && !c.Strict {
 		// the engine and HTML5 disagree on which element this is (known finding K28): where the
 		// datum lies in the browser's reading is not what the engine analysed
 		c.Count("oracle3_excluded_by_known:K28", 1)
